@@ -170,6 +170,8 @@ def handle (j : Json) : Except String Json := do
       | .ok st => pure (Json.mkObj [("ok", jSchema d st.schema.1), ("attrs", jAttrState D st),
           ("placed", .arr (st.placed.reverse.map (fun p => Json.mkObj [("table", jName p.table), ("entity", jName p.ent),
               ("attr", jName p.attr), ("cols", jNames p.cols), ("notNull", .bool p.notNull)])).toArray),
+          ("indexed", .arr (st.indexed.reverse.map (fun p => Json.mkObj [("table", jName p.table), ("entity", jName p.ent),
+              ("cols", jNames p.cols), ("isPk", jPk p.isPk), ("unique", .bool p.unique)])).toArray),
           ("linked", .arr (st.linked.reverse.map (fun p => Json.mkObj [("entity", jName p.ent), ("attr", jName p.attr),
               ("child", jName p.child), ("cols", jNames p.cols), ("parent", jName p.parent),
               ("parentCols", jNames p.parentCols)])).toArray)])
